@@ -543,6 +543,10 @@ func leanStrList(l []string) string {
 }
 
 func main() {
+	if len(os.Args) > 1 && os.Args[1] == "loop" {
+		mainLoop(os.Args[2:])
+		return
+	}
 	if len(os.Args) != 2 {
 		fmt.Fprintln(os.Stderr, "usage: cursorfetch <path to lib/query/cursor.go>")
 		os.Exit(2)
